@@ -15,8 +15,15 @@ pub struct C16;
 
 #[derive(Clone, Debug, Serialize, Deserialize)]
 pub enum Op {
-    /// execute statement `stmt` (index), rebinding types if `rebind`
-    Exec { stmt: usize, params: Vec<Param>, rebind: bool },
+    /// execute statement `stmt` (index), rebinding types if `rebind`; the shim pulls only the
+    /// first `take` parameters from the iterator (None = all of them)
+    Exec {
+        stmt: usize,
+        params: Vec<Param>,
+        rebind: bool,
+        #[serde(default)]
+        take: Option<usize>,
+    },
     /// COM_STMT_SEND_LONG_DATA for (stmt, param)
     Long { stmt: usize, param: u16, data: Vec<u8> },
     /// another command in between
@@ -44,6 +51,7 @@ pub fn build_history(case: &Case) -> (Conversation, Vec<(u32, Vec<(u8, Inner, Op
     }
     let mut pending: HashMap<(usize, u16), Vec<u8>> = HashMap::new();
     let mut want = Vec::new();
+    let mut takes: Vec<Option<usize>> = Vec::new();
     for op in &case.ops {
         match op {
             Op::Ping => cmds.push(Cmd::Ping),
@@ -57,13 +65,15 @@ pub fn build_history(case: &Case) -> (Conversation, Vec<(u32, Vec<(u8, Inner, Op
                 cmds.push(Cmd::LongData { id: case.stmts[*stmt].0, param: *param, data: Blob::Lit(data.clone()) });
                 pending.entry((*stmt, *param)).or_default().extend_from_slice(data);
             }
-            Op::Exec { stmt, params, rebind } => {
+            Op::Exec { stmt, params, rebind, take } => {
                 cmds.push(Cmd::Execute { id: case.stmts[*stmt].0, params: params.clone(), send_types: *rebind, flags: 0, iterations: 1 });
                 actions.push(Action::Result(Program::completed(0, 0)));
+                takes.push(*take);
                 let n = case.stmts[*stmt].1;
                 let seen = params
                     .iter()
                     .enumerate()
+                    .take(take.unwrap_or(usize::MAX))
                     .map(|(i, p)| {
                         let ld = pending.get(&(*stmt, i as u16)).map(|v| &v[..]);
                         expected_seen(p, ld)
@@ -79,7 +89,9 @@ pub fn build_history(case: &Case) -> (Conversation, Vec<(u32, Vec<(u8, Inner, Op
             }
         }
     }
-    (Conversation::new(cmds, actions), want)
+    let mut conv = Conversation::new(cmds, actions);
+    conv.param_takes = takes;
+    (conv, want)
 }
 
 pub fn judge_history(prefix: &str, case: &Case, ex: &mut Exec, check_conv: bool) {
@@ -129,7 +141,7 @@ impl Prop for C16 {
         "C16"
     }
     fn rule(&self) -> String {
-        "cases = 2-4 prepared statements with 1-12 parameters and a history of 2-30 executions; each execution picks a statement and either rebinds (new-params-bound = 1 with freshly generated types, or with the bound types changed only in some signedness flags or in a single position) or reuses (flag = 0, no type block; the first execution after a prepare always binds, as the protocol requires); values are encoded per the types in force in the reference model types[stmt]. Oracle: the shim must see exactly the model's (type code, ValueInner) lists for every execution. Non-trivial = some reuse happens after a rebind of a *different* statement (so a single global type table would be caught), or a reuse follows a rebind to different types of the same statement.".into()
+        "cases = 2-4 prepared statements with 1-12 parameters and a history of 2-30 executions; each execution picks a statement and either rebinds (new-params-bound = 1 with freshly generated types, or with the bound types changed only in some signedness flags or in a single position) or reuses (flag = 0, no type block; the first execution after a prepare always binds, as the protocol requires); values are encoded per the types in force in the reference model types[stmt]. Oracle: the shim must see exactly the model's (type code, ValueInner) lists for every execution.  In 1 of 5 executions the shim pulls only a prefix of the parameters (possibly none) from the iterator; what that execution bound must persist all the same. Non-trivial = some reuse happens after a rebind of a *different* statement (so a single global type table would be caught), or a reuse follows a rebind to different types of the same statement.".into()
     }
     fn assumptions(&self) -> Vec<String> {
         vec!["the recording shim iterates all parameters of every execution, as every caller in the repository does (the library parses the type block lazily inside the iterator)".into()]
@@ -177,7 +189,9 @@ impl Prop for C16 {
                 });
             }
             let params = params_for(g, types[s].as_ref().unwrap());
-            ops.push(Op::Exec { stmt: s, params, rebind });
+            // a shim may look at only some of the parameters (or none): what is bound must persist
+            let take = if g.chance(1, 5) { Some(g.usize_in(0, params.len())) } else { None };
+            ops.push(Op::Exec { stmt: s, params, rebind, take });
             if g.chance(1, 8) {
                 ops.push(Op::Ping);
             }
